@@ -135,24 +135,29 @@ theorem counterexample_at_no_params :
 
 /-! ## Assignment context (`expand.Literal`) -/
 
-def literal_spec_statement : Prop :=
-  ∀ (env : Env) (parts : List Part), literal env parts = posixLiteral env parts
 
-/-- `r=a\ b`: the model (like the code) keeps the backslash. -/
-theorem literal_spec_counterexample : ¬ literal_spec_statement := by
-  intro h
-  have := h (dfltEnv []) [.lit [97, 92, 32, 98]]
-  revert this
-  decide
-
-/-- Quote removal in assignment context is right whenever no unquoted literal contains a backslash
-    (or NUL): everything else — quotes, `\"` `\\` `\$` inside double quotes, `$@`/`$*` joining — is as
-    POSIX says. -/
-theorem literal_spec_partial (env : Env) (parts : List Part)
-    (h : ∀ p ∈ parts, (∀ s, p = .lit s → s.contains 92 = false ∧ s.contains 0 = false) ∧
+/-- Quote removal in assignment context (`expand.Literal`, since 532994e): for every environment and
+    every word (source text without NUL bytes), the value is the concatenation of the quote-removed
+    parts — `\c` → `c` in unquoted literals, `\"` `\\` `\$` `` \` `` inside double quotes, `$@` joined with
+    spaces and `$*` with the first IFS character, nothing split. -/
+theorem literal_spec (env : Env) (parts : List Part)
+    (h : ∀ p ∈ parts, (∀ s, p = .lit s → s.contains 0 = false) ∧
                       (∀ ps, p = .dbl ps → ps.all dpartOk = true)) :
     literal env parts = posixLiteral env parts :=
-  literal_spec_partial' env parts h
+  literal_spec' env parts h
+
+/-- The unexported `literalKeepEscapes` (words inside `${v:-word}`, `${v/p/repl}`, arithmetic) only
+    differs by keeping the backslashes of unquoted literals. -/
+theorem literalKeepEscapes_spec (env : Env) (parts : List Part)
+    (h : ∀ p ∈ parts, (∀ s, p = .lit s → s.contains 92 = false ∧ s.contains 0 = false) ∧
+                      (∀ ps, p = .dbl ps → ps.all dpartOk = true)) :
+    literalKeepEscapes env parts = posixLiteral env parts :=
+  literalKeepEscapes_spec' env parts h
+
+/-- Pinned (532994e): `r=a\ b` assigns `a b`; `literalKeepEscapes` keeps `a\ b`. -/
+theorem pinned_assign_backslash :
+    literal (dfltEnv []) [.lit [97, 92, 32, 98]] = [97, 32, 98] ∧
+    literalKeepEscapes (dfltEnv []) [.lit [97, 92, 32, 98]] = [97, 92, 32, 98] := by decide
 
 /-! Non-vacuity of the hypothesis of `split_spec`. -/
 example : [Part.lit [120], .exp [c ':', c 'a', c ':', c ':'], .dbl [], .dbl [.at], .sgl [], .at].all partOk = true := by
